@@ -554,6 +554,7 @@ var specC06 = vstat.Spec[c06Case]{
 	Assumptions: []string{"fake links follow the link.Link contract (Close reports the loss at most once; a closed link is not established again)", "eventual observations are waited for up to 5 s"},
 	Gen:         genC06,
 	Check:       checkC06,
+	Inflight:    true,
 }
 
 func TestC06(t *testing.T)       { vstat.Check(t, specC06) }
